@@ -61,6 +61,11 @@ func normalize(network Network, proto Protocol, req, resp *dns.Msg, maxMsgSize u
 			},
 			Option: filterUnsupportedOptions(reqOpt.Option),
 		}
+		respOpt.SetUDPSize(ednsUDPSize)
+		if reqOpt.Do() {
+			respOpt.SetDo()
+		}
+
 		resp.Extra = append(resp.Extra, respOpt)
 	}
 
